@@ -539,6 +539,8 @@ class Data(object):
                             if field.quantile < get_lower_cdf(num_members) or field.quantile > get_upper_cdf(num_members):
                                 verif.util.warning("In %s, ensemble doesn't have enough members to accurately get quantile level %s" % (self._inputs[i].name, field.quantile))
 
+                            if field.quantile < 0 or field.quantile > 1:
+                                verif.util.error("Quantile level %s is outside the range [0, 1]" % field.quantile)
                             temp = self.preaggregate(input.ensemble, input)
                             temp = np.quantile(temp, field.quantile, axis=3, method="normal_unbiased")
                         else:
